@@ -284,10 +284,12 @@ class ResetAttrMethod(AttrMethodDescriptor):
     def reset_attr(attr_spec: Attr, self, *, _inplace: bool = False, _if: bool = True):
         if not _if:
             return self
+        original = self
         if not _inplace:
             self = copy.deepcopy(self)
-        # A private copy may be mutated even if the class is frozen.
-        self.__delattr__(attr_spec.name, force=not _inplace)
+        # A private copy may be mutated even if the class is frozen
+        # (`do_not_copy` classes hand back the instance itself).
+        self.__delattr__(attr_spec.name, force=self is not original)
         return self
 
     def build_method(self) -> Callable:
